@@ -16,7 +16,7 @@ import z3
 
 __all__ = [
     "R", "B", "Sp", "NAN", "INF", "NINF", "Space", "explore", "space", "fresh", "assume", "choice",
-    "PathAbort", "Inconclusive", "ShimUnsupported", "lift", "zterm", "mval", "is_conc",
+    "PathAbort", "Inconclusive", "ShimUnsupported", "lift", "zterm", "mval", "is_conc", "ite", "Ob", "named",
 ]
 
 
@@ -609,6 +609,19 @@ def lift(x):
     if hasattr(x, "_as_scalar"):  # 0-d arrays
         return lift(x._as_scalar())
     raise TypeError(f"cannot lift {type(x)} to a symbolic real")
+
+
+def ite(c, a, b):
+    """symbolic if-then-else on reals without forking (c: B)."""
+    c = B.lift(c)
+    if c.conc:
+        return a if c.v else b
+    a, b = lift(a), lift(b)
+    if isinstance(a, Sp) or isinstance(b, Sp):
+        return a if bool(c) else b
+    if _same(a.d, b.d):
+        return R(z3.If(c.v, _zc(a.n), _zc(b.n)), a.d)
+    return R(z3.If(c.v, _zc(_mul(a.n, b.d)), _zc(_mul(b.n, a.d))), _mul(a.d, b.d))
 
 
 def is_conc(x):
